@@ -101,18 +101,19 @@ def run(ctx):
     ctx.distinct += s["cases"]
     acc, rej = vlib.validate_trace(ctx, "XXH32_Trace", big, shards=4)
     ctx.sample({"real_4GiB_final_state": json.loads(open(big).readline())})
-    for rj in rej:
-        # re-execute: the big run is deterministic; run it again and compare the same record
+    if rej:
+        # re-execute: the big run is deterministic; run it again once and compare the same records
         big2 = os.path.join(d, "big2.ndjson")
         vlib.harness(b, "xxh-big", "--out", big2, timeout=1200)
         recs2 = {r_["case"]: r_ for r_ in vlib.read_ndjson(big2)}
-        rec = json.loads(rj["line"])
-        if recs2.get(rec["case"]) == rec:
-            ctx.violation(key_of_event(rec), "streaming digest after really writing %s bytes differs from the reference"
-                          % describe_total(rec["total"]),
-                          {"kind": "xxh-big", "cmd": "xxh-big", "record": rec, "tlc": rj["tlc"]})
-        else:
-            raise vlib.MachineryFault("xxh-big record not reproducible")
+        for rj in rej:
+            rec = json.loads(rj["line"])
+            if recs2.get(rec["case"]) == rec:
+                ctx.violation(key_of_event(rec), "streaming digest after really writing %s bytes differs from the reference"
+                              % describe_total(rec["total"]),
+                              {"kind": "xxh-big", "cmd": "xxh-big", "record": rec, "tlc": rj["tlc"]})
+            else:
+                raise vlib.MachineryFault("xxh-big record not reproducible")
     ctx.trusted += ["ref.XXH32/ref.Stream (Go transcription of XXH32.tla; %d records recomputed by TLC this run)"
                     % ctx.extra["ref_conformance_records"]]
     ctx.assumptions += ["amd64: the arm assembly of xxh32 is not executed on this host",
@@ -120,7 +121,7 @@ def run(ctx):
 
 
 def describe_total(t):
-    return "2^32%+d" % ((t[0] + (t[1] << 16) + (t[2] << 32)) - (1 << 32))
+    return "2^32%+d" % ((t[0] + (t[1] << 16) + (t[2] << 32) + (t[3] << 48)) - (1 << 32))
 
 
 def confirm_trace_rejection(ctx, b, d, rj):
